@@ -187,6 +187,8 @@ Apply(op, h) ==
     [] op = "innerNoSv"   -> Reseal(h, [p EXCEPT !.exts = DropAt(px, IdxT(px, "sv"))])
     [] op = "nonZeroPad"  -> Reseal(h, [p EXCEPT !.pad = "nonzero"])
     [] op = "eoeOdd"      -> Reseal(h, [p EXCEPT !.eoe = p.eoe \o << "ODD" >>])
+    [] op = "eoeNoData"   -> Reseal(h, [p EXCEPT !.eoe = << "NODATA" >>])      \* the ech_outer_extensions extension with a zero-length body (not even the list length)
+    [] op = "eoeEmptyList" -> Reseal(h, [p EXCEPT !.eoe = << "EMPTYLIST" >>])  \* ... or with an empty list
     [] op = "eoeBadLen"   -> Reseal(h, [p EXCEPT !.eoe = << "BADLEN" >> \o p.eoe])
     [] op = "eoeOutOfOrder" -> Reseal(h, [p EXCEPT !.eoe = SwapAt(p.eoe, 1)])
     [] op = "eoeAmplify"  -> Reseal(h, [p EXCEPT !.eoe = [i \in 1..100 |-> p.eoe[1]]])   \* one outer extension referenced a hundred times
@@ -209,7 +211,7 @@ ApplyK(op, h, k) ==
        IN [h1 EXCEPT !.ech.ct = [h.ech.ct EXCEPT !.aad = Aad(h1)]]
   ELSE Apply(op, h)
 
-NeedsEoe == {"eoeOdd", "eoeBadLen", "eoeRepeated", "eoeAmplify", "eoeMissing", "eoeRefsEch", "eoeRefsEoe", "eoeTwice"}
+NeedsEoe == {"eoeOdd", "eoeBadLen", "eoeNoData", "eoeEmptyList", "eoeRepeated", "eoeAmplify", "eoeMissing", "eoeRefsEch", "eoeRefsEoe", "eoeTwice"}
 NeedsEoe2 == {"eoeOutOfOrder"}
 NoEoeOps == {"eoeRefsSni"}
 Tampers == {"echTrailing", "swap1", "swapLast", "drop2", "addExt", "changeVal", "changeSid", "changeCid", "changeSuite", "otherEnc", "encToOther",
@@ -219,11 +221,11 @@ PassOps == {"noEch", "grease", "no13", "noSv", "unlistedSuite"}
 ClassOf(op) ==
   CASE op \in {"sniNameType", "innerSniNameType", "innerTypeNo13", "dupEchBefore", "dupEchInnerBefore", "dupEchAfter", "eoeInOuter", "innerTypeInOuter", "badEchType", "emptyEnc", "sniNotPublic", "sniKelvin", "noOuterSni", "noInnerEch", "outerTypeInInner",
                "innerNo13", "innerNoSv", "nonZeroPad", "eoeOutOfOrder", "eoeRepeated", "eoeAmplify", "eoeMissing", "eoeRefsEch", "eoeRefsEoe", "eoeTwice"} -> "illegal_parameter"
-    [] op \in {"eoeOdd", "eoeBadLen", "svOdd", "sniTwoNames", "innerSvOdd"} -> "decode_error"
+    [] op \in {"eoeOdd", "eoeBadLen", "eoeNoData", "eoeEmptyList", "svOdd", "sniTwoNames", "innerSvOdd"} -> "decode_error"
     [] OTHER -> "none"
 \* the draft mandates illegal_parameter for the ECH-specific rules; for merely malformed contents of an extension TLS allows
 \* decode_error or illegal_parameter, and the specification admits both
-Malformed == {"svOdd", "sniTwoNames", "innerSvOdd", "sniNameType", "innerSniNameType", "eoeOdd", "eoeBadLen"}
+Malformed == {"svOdd", "sniTwoNames", "innerSvOdd", "sniNameType", "innerSniNameType", "eoeOdd", "eoeBadLen", "eoeNoData", "eoeEmptyList"}
 ClassesOf(op) == IF op \in Malformed THEN {"decode_error", "illegal_parameter"} ELSE {ClassOf(op)}
 Faults == {op \in Ops : ClassOf(op) # "none"}
 
